@@ -191,5 +191,9 @@ def mxstat_direct(result):
             if relock and "mutex-self-deadlock" not in [s for s, _ in out]:
                 out.append(("mutex-self-deadlock", "the library locked a mutex it already holds %d time(s) (single thread): with OS mutexes this call never returns "
                             "- last library call before the count: `%s`" % (relock, " ".join(last or [])[:120])))
+            if created != destroyed and "mutex-survives-finalize" not in [s for s, _ in out]:
+                out.append(("mutex-survives-finalize", "after `%s` the library is not initialised, yet %d of the %d mutexes it made through the application's CreateMutex are still alive "
+                            "(model Shm/Model/MutexLife.lean: none survives outside an initialised period; the next C_Initialize with other mutex functions would use them)"
+                            % (" ".join(last or [])[:60], created - destroyed, created)))
         elif op[0] != "nop": last = op
     return out
